@@ -3,6 +3,8 @@
   Property theorems only; helper lemmas live in HL/Lemmas/Text.lean.
 -/
 import HL.Lemmas.Text
+import HL.Generated.Expect.Text
+import HL.Generated.Expect.Dispatch
 namespace HL.Props.C01
 open HL.Text HL.Ref HL.Lemmas.Text
 
@@ -27,14 +29,12 @@ theorem mirror_change (s : Txt) (r : Range) (t : Txt) (h : rangeOK s r = true) :
   rw [enc16_append, enc16_append, enc16_take, enc16_drop, e1, e2]
 
 /-- One content change, ranged or range-less, as decoded from the wire. -/
-theorem mirror_one (s : Txt) (c : Ref.Change) (h : changeOK s c = true)
-    (hg : originInsert c = false) :
+theorem mirror_one (s : Txt) (c : Ref.Change) (h : changeOK s c = true) :
     enc16 (Text.applyOne true s (wire c)) = Ref.applyOne (enc16 s) c := by
   cases c with
-  | full t => simp [wire, Text.applyOne, isFullChange, Ref.applyOne]
+  | full t => simp [wire, Text.applyOne, Ref.applyOne]
   | ranged r t =>
-    simp only [originInsert] at hg
-    simp only [wire, Text.applyOne, hg]
+    simp only [wire, Text.applyOne]
     exact mirror_change s r t h
 
 /-- Several changes in one notification apply in order. -/
@@ -43,10 +43,10 @@ theorem mirror_notification (s : Txt) (cs : List Ref.Change) (h : changesOK s cs
   induction cs generalizing s with
   | nil => rfl
   | cons c cs ih =>
-    simp only [changesOK, Bool.and_eq_true, Bool.not_eq_true'] at h
-    obtain ⟨⟨h1, h2⟩, h3⟩ := h
+    simp only [changesOK, Bool.and_eq_true] at h
+    obtain ⟨h1, h3⟩ := h
     simp only [Text.applyAll, Ref.applyAll, List.map_cons, List.foldl_cons]
-    rw [← mirror_one s c h1 h2]
+    rw [← mirror_one s c h1]
     exact ih _ h3
 
 /-! ### Histories over any number of documents -/
@@ -132,20 +132,23 @@ theorem sim_run (d : Text.Docs) (rd : Ref.Docs) (h : List Ref.Note) (hs : Sim d 
 /-- **C01, first sentence.** After any finite history of didOpen / didChange / didClose /
     re-open over any number of documents sent by a conforming client, the text the server
     holds for every URI is exactly the client's text (and is absent exactly when the client
-    has the document closed).  Guard: no ranged change with range 0:0-0:0 (`originInsert`),
-    which the decoded protocol type cannot tell from a range-less change. -/
+    has the document closed).  No guard on the shape of changes: an insertion at 0:0 is a
+    ranged change like any other since the repair of finding `insert-at-origin`. -/
 theorem mirror_history (h : List Ref.Note) (hok : histOK [] h = true) (u : Uri) :
     ((Text.run true (h.map wireNote)).get u).map enc16 = (Ref.run h).get u :=
   sim_run [] [] h (fun _ => rfl) hok u
 
 /-! ### Counterexamples (kernel-evaluated) -/
 
-/-- Known finding `insert-at-origin`: a ranged insertion at 0:0 is taken for a full
-    replacement; the client holds "Xabc", the server "X". -/
-theorem insert_at_origin_counterexample :
+/-- Finding `insert-at-origin` (repaired by a `fix:` commit): with the PINNED decoding
+    (`wirePinned`: range by value, `isFullChange`) a ranged insertion at 0:0 is taken for a
+    full replacement — the client holds "Xabc", the server "X"; with the repaired decoding
+    (`wire`) both hold "Xabc". -/
+theorem pinned_insert_at_origin_counterexample :
     let c : Ref.Change := .ranged ⟨0, 0, 0, 0⟩ ['X']
     changeOK ['a', 'b', 'c'] c = true ∧
-    enc16 (Text.applyOne true ['a', 'b', 'c'] (wire c)) ≠ Ref.applyOne (enc16 ['a', 'b', 'c']) c := by
+    enc16 (Text.applyOne true ['a', 'b', 'c'] (wirePinned c)) ≠ Ref.applyOne (enc16 ['a', 'b', 'c']) c ∧
+    enc16 (Text.applyOne true ['a', 'b', 'c'] (wire c)) = Ref.applyOne (enc16 ['a', 'b', 'c']) c := by
   decide
 
 /-- mapper.go as pinned (no CR trimming): a character past the end of a CRLF line lands
@@ -163,7 +166,7 @@ theorem pinned_crlf_clamp_counterexample :
     notification, a range past the line end, close and re-open satisfies `histOK`. -/
 example : histOK []
     [.didOpen "a" ['x', '😀', '\r', '\n', 'y'],
-     .didChange "a" [.ranged ⟨0, 3, 0, 9⟩ ['z'], .ranged ⟨1, 0, 5, 0⟩ [], .full ['q']],
+     .didChange "a" [.ranged ⟨0, 3, 0, 9⟩ ['z'], .ranged ⟨1, 0, 5, 0⟩ [], .ranged ⟨0, 0, 0, 0⟩ ['w'], .full ['q']],
      .didClose "a", .didOpen "a" []] = true := by decide
 
 end HL.Props.C01
